@@ -28,8 +28,8 @@ TOLERANCES = {
 }
 ASSUMPTIONS = ["loop model of vf.oracles.gridmodel (numbering convention of C07)"]
 FLOORS = {
-    "quick": {"scalar_voxel_size": 100, "grid_rejudged_after_operators": 300, "divergence_matrix": 500, "face_to_cell_model": 1500, "cell_to_face_model": 3000, "tangential_constant": 300},
-    "thorough": {"scalar_voxel_size": 1000, "grid_rejudged_after_operators": 3000, "divergence_matrix": 5000, "face_to_cell_model": 15000, "cell_to_face_model": 30000, "tangential_constant": 3000},
+    "quick": {"cell_to_face_integer_fields": 500, "reconstruction_object_reused": 500, "scalar_voxel_size": 100, "grid_rejudged_after_operators": 300, "divergence_matrix": 500, "face_to_cell_model": 1500, "cell_to_face_model": 3000, "tangential_constant": 300},
+    "thorough": {"cell_to_face_integer_fields": 5000, "reconstruction_object_reused": 5000, "scalar_voxel_size": 1000, "grid_rejudged_after_operators": 3000, "divergence_matrix": 5000, "face_to_cell_model": 15000, "cell_to_face_model": 30000, "tangential_constant": 3000},
 }
 
 
@@ -171,6 +171,20 @@ def run_shard(spec, R):
             if ok:
                 R.check(close(fq, M.cell_to_face([M.flat(sg)] * dim, "arithmetic"), float(np.max(np.abs(sg)))), "cell_to_face_model", {**case, "kind": "signed"})
 
+            # integer-valued cell fields (label-based weights): the means are the means of the numbers
+            it_field = rng.integers(1, 6, size=shape)
+            ikinds = {"int_scalar": (it_field, [M.flat(it_field.astype(float))] * dim)}
+            if dim > 1:
+                ivec = rng.integers(1, 6, size=shape + (dim,))
+                ikinds["int_vector"] = (ivec, [M.flat(ivec[..., d].astype(float)) for d in range(dim)])
+            for kname, (qty, comps) in ikinds.items():
+                for mode in ("arithmetic", "harmonic"):
+                    q0 = qty.copy()
+                    ok, fq = R.guarded("cell_to_face_average", lambda: darsia.cell_to_face_average(grid, qty, mode))
+                    if ok:
+                        R.check(close(fq, M.cell_to_face(comps, mode), 6.0) and np.array_equal(qty, q0), "cell_to_face_model", lambda: {**case, "kind": kname, "mode": mode}, group="integer_fields")
+                        R.count("cell_to_face_integer_fields")
+
             # ---------------- tangential / full reconstruction of a constant field
             a = rng.standard_normal(dim)
             normal = np.zeros(nf)
@@ -190,6 +204,25 @@ def run_shard(spec, R):
                     good &= worst <= 8 * eps * float(np.max(np.abs(a)))
                 R.check(good, "tangential_constant", lambda: {**case, "a": a.tolist(), "worst": worst})
                 R.sig([list(shape), "tangential"], nontriv and any(len(x) for x in M.interior))
+            # one reconstruction object serves several fluxes (as in a solver loop): every application is judged
+            a2s = [rng.standard_normal(dim) for _ in range(2)]
+            ok, objs = R.guarded("full_reconstruction", lambda: (darsia.FVFullFaceReconstruction(grid), darsia.FVTangentialFaceReconstruction(grid)))
+            if ok:
+                for rep, a2 in enumerate([a] + a2s):
+                    normal2 = np.zeros(nf)
+                    for d in range(dim):
+                        normal2[np.asarray(M.faces[d], dtype=int)] = a2[d]
+                    ok, full2 = R.guarded("full_reconstruction", lambda: objs[0](normal2))
+                    if ok:
+                        good = np.shape(full2) == (nf, dim) and all(float(np.max(np.abs(full2[f] - a2))) <= 8 * eps * float(np.max(np.abs(a2))) for d in range(dim) for f in M.interior[d])
+                        R.check(bool(good), "tangential_constant", lambda: {**case, "what": "full reconstruction object re-used", "application": rep + 1, "a": a2.tolist()}, group="object_reused")
+                        R.count("reconstruction_object_reused")
+                    if dim > 1:
+                        ok, tang2 = R.guarded("tangential_reconstruction", lambda: objs[1](normal2, False))
+                        if ok:
+                            good = len(tang2) == dim - 1 and all(abs(tang2[i][f] - a2[dp]) <= 8 * eps * abs(a2[dp]) for d in range(dim)
+                                                                 for i, dp in enumerate([e for e in range(dim) if e != d]) for f in M.interior[d])
+                            R.check(bool(good), "tangential_constant", lambda: {**case, "what": "tangential reconstruction object re-used", "application": rep + 1}, group="object_reused")
             ok, tang = R.guarded("tangential_reconstruction", lambda: darsia.FVTangentialFaceReconstruction(grid)(normal, False))
             if ok and dim > 1:
                 good = len(tang) == dim - 1
